@@ -1,4 +1,5 @@
 import Mdsort.Model.Scripts
+import Mdsort.Model.EvalP
 
 /-!
 # The main loop of mdsort as a program over `Call`, and its two interpreters
@@ -18,11 +19,14 @@ structure ConfBlock where
   expr : Expr
 deriving Repr
 
-/-- What the evaluator needs besides the file system (see `Env`). -/
+/-- What the evaluator needs besides the file system (see `Env`).  `timeFormat` is `time_format` (time.c: `localtime` +
+`strftime`, `none` = NULL), used by the file-time date conditions: it becomes `Env.timeFormat` of the environment a message
+is evaluated in. -/
 structure EvalOracles where
   rx : Pat → Bytes → RxRes
   strptime : Bytes → Option (Tm × Bytes)
   zoneName : Bytes → Option Int
+  timeFormat : Int → Option Bytes := fun _ => none
 
 /-- Contents of the files below the maildirs, by directory path and name. -/
 abbrev Files := List (Bytes × Bytes × Bytes)
@@ -97,7 +101,9 @@ def inspectLines (env : PEnv) (ml : MatchList) (path : Bytes) : List Bytes :=
        | some l => ofString l
        | none => mh.path)
 
-/-- One message: parse, evaluate, interpolate, inspect / execute, free. -/
+/-- One message: parse, evaluate, interpolate, inspect / execute, free.  Evaluation is `evalP`: the `command`,
+`isdirectory` and file-time date conditions issue their calls (`exec(argv, -1)`, `stat`) while the rules are evaluated,
+in evaluation order; the three oracle fields of the environment are not used (Model/EvalP.lean). -/
 def processMessage (env : PEnv) (orc : EvalOracles) (expr : Expr) (md : Maildir) (name : Bytes) (st : MainSt) :
     Prog (MainSt × Maildir) :=
   match md.dirH with
@@ -113,12 +119,13 @@ def processMessage (env : PEnv) (orc : EvalOracles) (expr : Expr) (md : Maildir)
         let eenv : Env := {
           rx := orc.rx, command := fun _ => -1, isDir := fun _ => false, now := env.now,
           strptime := orc.strptime, zoneName := orc.zoneName, fileTime := fun _ => none,
-          dryrun := env.dryrun, path := ms.path }
+          timeFormat := orc.timeFormat, dryrun := env.dryrun, path := ms.path }
         let free (ms : MsgSt) : Prog Unit :=
           match ms.fd with
           | some h => do let _ ← call (.close h); pure ()
           | none => pure ()
-        match eval eenv ms.msg expr 0 ms.msg { ml := [], flags := ms.flags } with
+        let ev ← evalP eenv expr ms.msg ms.flags
+        match ev with
         | (.error, _) => do free ms; pure ({ st with error := true }, md)
         | (.nomatch, _) => do free ms; pure (st, md)
         | (.match, est) =>
